@@ -107,19 +107,61 @@ fn get_first_branch_tid(blk: &Term<Blk>) -> Option<&Tid> {
     None
 }
 
+/// Returns the number of jumps, return targets of calls and indirect jump targets
+/// in the given function that target the block with the given TID.
+fn count_jumps_to_blk(sub: &Sub, blk_tid: &Tid) -> usize {
+    let mut count = 0;
+    for blk in sub.blocks.iter() {
+        for jmp in blk.term.jmps.iter() {
+            match &jmp.term {
+                Jmp::Branch(target)
+                | Jmp::CBranch { target, .. }
+                | Jmp::Call {
+                    return_: Some(target),
+                    ..
+                }
+                | Jmp::CallInd {
+                    return_: Some(target),
+                    ..
+                }
+                | Jmp::CallOther {
+                    return_: Some(target),
+                    ..
+                } if target == blk_tid => count += 1,
+                _ => (),
+            }
+        }
+        count += blk
+            .term
+            .indirect_jmp_targets
+            .iter()
+            .filter(|target| *target == blk_tid)
+            .count();
+    }
+    count
+}
+
 /// Returns the index of the first block with non-empty defs.
 /// Blocks are iterated according by considering their first `Jmp::Branch`.
 /// If a block is revisited, `None` is returned.
+/// `None` is also returned if one of the iterated blocks can be reached through another jump,
+/// because then the block may also be executed with another stack pointer value than at function start.
 fn get_first_blk_with_defs(sub: &Sub) -> Option<usize> {
     let blocks = &sub.blocks;
     if let Some(start_blk) = blocks.first() {
         let mut visited = HashSet::new();
         let mut blk = start_blk;
+        if count_jumps_to_blk(sub, &start_blk.tid) != 0 {
+            return None;
+        }
 
         'search_loop: while blk.term.defs.is_empty() {
             if let Some(target_tid) = get_first_branch_tid(blk) {
                 if !visited.contains(&blk.tid) {
                     visited.insert(&blk.tid);
+                    if count_jumps_to_blk(sub, target_tid) != 1 {
+                        return None;
+                    }
 
                     // try find this target
                     for (index, target_blk) in blocks.iter().enumerate() {
